@@ -1019,3 +1019,57 @@ Proof.
   apply Forall_app; split; [apply be_bytes_bytes|].
   repeat constructor; unfold is_byte; lia.
 Qed.
+
+(** * the statements of Props.v *)
+Lemma flac_roundtrip_bytes_lemma : forall sp frames,
+  fspec_ok sp -> Forall (fframe_ok sp) frames -> (length frames <= 128)%nat ->
+  flac_decode (flac_encode sp frames) = Some (FDec sp frames StEnd) /\
+  Forall (fun b => 0 <= b < 256) (flac_encode sp frames).
+Proof. intros. split; [now apply flac_roundtrip_lemma|now apply flac_encode_bytes_lemma]. Qed.
+
+Lemma flac_truncation_both_lemma : forall sp frames k fr,
+  fspec_ok sp -> Forall (fframe_ok sp) frames -> (length frames <= 128)%nat ->
+  nth_error frames k = Some fr ->
+  (forall j : nat, (0 < j < length (enc_fframe sp (Z.of_nat k) fr None))%nat ->
+     flac_decode (firstn (42 + length (enc_frames sp 0 (firstn k frames) None) + j) (flac_encode sp frames)) =
+     Some (FDec sp (firstn k frames) StTrunc)) /\
+  flac_decode (firstn (42 + length (enc_frames sp 0 (firstn k frames) None)) (flac_encode sp frames)) =
+  Some (FDec sp (firstn k frames) StShort).
+Proof.
+  intros sp frames k fr Hsp Hf Hl Hk. split.
+  - intros j Hj. now apply (flac_truncation_lemma sp frames k fr).
+  - apply flac_cut_at_boundary_lemma; try assumption. apply nth_error_Some. congruence.
+Qed.
+
+Lemma fl_spec_frames_shape_lemma : forall sp frames,
+  Forall (fframe_ok sp) frames ->
+  Z.of_nat (length (fl_audio frames)) = total_of frames /\
+  (fl_ch sp = 1 ->
+     fl_spec_frames sp frames =
+     Some (map (fun st => let m := fl_conv (fl_bps sp) (hd 0 st) in (m, m)) (fl_audio frames))) /\
+  (fl_ch sp = 2 ->
+     fl_spec_frames sp frames =
+     Some (map (fun st => (fl_conv (fl_bps sp) (nth 0 st 0), fl_conv (fl_bps sp) (nth 1 st 0))) (fl_audio frames))) /\
+  (3 <= fl_ch sp -> frames <> [] -> fl_spec_frames sp frames = None).
+Proof.
+  intros sp frames H. split; [now apply (fl_audio_length sp)|]. split; [|split].
+  - intros C. now apply fl_spec_frames_mono.
+  - intros C. now apply fl_spec_frames_stereo.
+  - intros C N. now apply fl_spec_frames_multi.
+Qed.
+
+Lemma flac_load_bad_files_lemma : forall sp frames k fr,
+  fspec_ok sp -> Forall (fframe_ok sp) frames -> (length frames <= 128)%nat ->
+  nth_error frames k = Some fr ->
+  (forall d : defect, defect_ok fr d ->
+     flac_ref_load (flac_encode_bad sp frames (Some (k, d))) = LErr) /\
+  (forall (j : nat) (frs : list (f32 * f32)),
+     (j < length (enc_fframe sp (Z.of_nat k) fr None))%nat ->
+     fl_spec_frames sp frames = Some frs ->
+     flac_ref_load (firstn (42 + length (enc_frames sp 0 (firstn k frames) None) + j) (flac_encode sp frames)) =
+     LOk (fl_rate sp) (firstn (Z.to_nat (total_of (firstn k frames))) frs)).
+Proof.
+  intros sp frames k fr Hsp Hf Hl Hk. split.
+  - intros d Hd. now apply (flac_load_bad_lemma sp frames k fr d).
+  - intros j frs Hj Hs. now apply (flac_load_truncated_lemma sp frames k fr j frs).
+Qed.
